@@ -22,6 +22,7 @@ use crate::testcase::TestCase;
 pub const BASH_EXCLUDED_VARIABLES: &[&str] = &[
     // variables from Scrut internals
     "__SCRUT_DECLARE_VARS_CMD",
+    "__SCRUT_EXIT_CODE",
     "__SCRUT_TEMP_STATE_PATH",
     // variables set by scrut in every execution
     "SCRUT_TEST",
